@@ -37,9 +37,12 @@ Failing(k) == {
   DelC("c1", T1, k, Cond(Cmp("=", Path("v"), Val(":n"))), <<>>, One(":n", Num(5)), FALSE, FALSE),
   Put("tblx", k), Upd("tblx", k, SetU("v", Val(":n")), One(":n", Num(2))), Del("tblx", k, FALSE), Get("tblx", k)
 }
-\* known open finding C08/batch-partial-apply (probed by its witness on every run, kept out of the menu):
-\*   BW(<<Req(T1, "put", k @@ [v |-> Num(9)]), Req(T1, "put", [v |-> Num(9)])>>)     second request lacks the key
-\*   BW(<<Req(T1, "del", k), Req(T1, "put", k @@ [g |-> Num(1)])>>)                   second request ill-typed index key
+\* a batch whose LAST request is invalid (put without its key, put with an ill-typed index key, delete with a malformed key,
+\* request for an unknown table) after a valid put / delete: nothing of the batch may be applied
+Batches(k) == { BW(<<first, second>>) :
+                  first \in { Req(T1, "put", k @@ [v |-> Num(9)]), Req(T1, "del", k) },
+                  second \in { Req(T1, "put", [v |-> Num(9)]), Req(T1, "put", k @@ [g |-> Num(1)]), Req(T1, "del", [x |-> S1(97)]),
+                               Req(T1, "del", [h |-> Num(1)]), Req("tblx", "put", k) } }
 
 AD(n) == [n |-> n, ty |-> "S"]
 \* hash-only table would not allow a local index: the table has a sort key r (always "1" in this model)
@@ -52,7 +55,7 @@ CT == [op |-> "CreateTable", c |-> "c1", t |-> T1, hash |-> [n |-> "h", ty |-> "
 SetupDef == << CT >>
 MenuDef == SetToSeq(
      { Put(T1, it) : it \in Items } \cup { Del(T1, k, FALSE) : k \in Keys }
-  \cup UNION { Failing(k) : k \in Keys }
+  \cup UNION { Failing(k) : k \in Keys } \cup UNION { Batches(k) : k \in Keys }
   \cup { Put(T1, bk @@ [v |-> Num(1)]) : bk \in BadKeys }
   \cup { Get(T1, bk) : bk \in BadKeys } \cup { Del(T1, bk, FALSE) : bk \in BadKeys }
   \cup { Upd(T1, bk, SetU("v", Val(":n")), One(":n", Num(2))) : bk \in BadKeys }
